@@ -308,3 +308,69 @@ func cmdPatchSelftest(dir string, keep bool, filter string) int {
 	}
 	return 0
 }
+
+
+// runPatchesFor (thorough tier): the confirmed seeded changes whose first-named detecting
+// property is id must still be reported by this check, and the behaviour-preserving variants
+// that list id must leave it silent.  Returns 0 when that holds.
+func runPatchesFor(id string, r *Report) int {
+	var run []patchCase
+	for _, c := range loadPatchCases("seeded", false) {
+		if len(c.Props) > 0 && c.Props[0] == id {
+			c.Props = []string{id}
+			run = append(run, c)
+		}
+	}
+	nSeeds := len(run)
+	for _, c := range loadPatchCases("neutral", true) {
+		for _, p := range c.Props {
+			if p == id {
+				c.Props = []string{id}
+				run = append(run, c)
+			}
+		}
+	}
+	if len(run) == 0 {
+		return 0
+	}
+	type res struct{ status, detail string }
+	rs := make([]res, len(run))
+	var wg sync.WaitGroup
+	sem := make(chan struct{}, 4)
+	for i := range run {
+		wg.Add(1)
+		go func(i int) {
+			defer wg.Done()
+			sem <- struct{}{}
+			s, d := runPatchCase(run[i])
+			rs[i] = res{s, d}
+			<-sem
+		}(i)
+	}
+	wg.Wait()
+	counts := map[string]int{}
+	var bad []string
+	var rows []map[string]string
+	for i, c := range run {
+		counts[rs[i].status]++
+		kind := "seeded change"
+		if c.Keep {
+			kind = "behaviour-preserving variant"
+		}
+		rows = append(rows, map[string]string{"patch": c.Name, "kind": kind, "status": rs[i].status, "detail": rs[i].detail})
+		switch rs[i].status {
+		case "missed", "false-alarm", "nocompile", "stale-limit":
+			bad = append(bad, c.Name+": "+rs[i].status+" — "+rs[i].detail)
+		}
+	}
+	r.Extra["patch_regression"] = map[string]any{"seeded_changes": nSeeds, "behaviour_preserving_variants": len(run) - nSeeds, "counts": counts, "results": rows}
+	r.Note("patch regression: %d seeded changes (must be reported), %d behaviour-preserving variants (must stay silent): %v", nSeeds, len(run)-nSeeds, counts)
+	if len(bad) > 0 {
+		sort.Strings(bad)
+		for _, b := range bad {
+			fmt.Fprintln(os.Stderr, "SELFTEST-FAIL", id, b)
+		}
+		return 2
+	}
+	return 0
+}
